@@ -222,6 +222,17 @@ public:
         _fast_replies.clear();
     }
 
+    // The Broker (re)starts the QoS 2 exchange with this Packet Identifier:
+    // whoever still waits for its PUBREL belongs to an earlier attempt.
+    void cancel_pending_pubrel(uint16_t packet_id) {
+        auto it = find_handler(control_code_e::pubrel, packet_id);
+        if (it == _handlers.end())
+            return;
+        auto handler = std::move(*it);
+        _handlers.erase(it);
+        handler.complete(asio::error::operation_aborted);
+    }
+
     void clear_pending_pubrels() {
         for (auto it = _handlers.begin(); it != _handlers.end();) {
             if (it->code() == control_code_e::pubrel) {
